@@ -44,11 +44,15 @@ func subConc(out string, seed uint64, tier string, arg string) {
 	type regDef struct {
 		desc string
 		fo   lint.FilterOptions
+		cfg  string // if set: installed with SetConfiguration before the registry is shared (configuring is not a concurrent operation)
 	}
-	regDefs := []regDef{{"global", lint.FilterOptions{}},
-		{"rfc", lint.FilterOptions{IncludeSources: lint.SourceList{lint.RFC5280, lint.RFC5480}}},
-		{"no-br", lint.FilterOptions{ExcludeSources: lint.SourceList{lint.CABFBaselineRequirements}}},
-		{"rsa", lint.FilterOptions{NameFilter: regexp.MustCompile("rsa|dnsname|onion|tld")}}}
+	regDefs := []regDef{{"global", lint.FilterOptions{}, ""},
+		{"rfc", lint.FilterOptions{IncludeSources: lint.SourceList{lint.RFC5280, lint.RFC5480}}, ""},
+		{"no-br", lint.FilterOptions{ExcludeSources: lint.SourceList{lint.CABFBaselineRequirements}}, ""},
+		{"rsa", lint.FilterOptions{NameFilter: regexp.MustCompile("rsa|dnsname|onion|tld")}, ""},
+		// a shared registry that carries a section for every configurable lint: whatever the wrappers do with the
+		// configuration while applying it happens on all goroutines at once
+		{"configured", lint.FilterOptions{ExcludeSources: lint.SourceList{"NoSuchSourceAtAll"}}, "[e_rsa_fermat_factorization]\nRounds = 50\n[e_subj_contains_html_entities]\nSkip = false\n[e_subj_orgunit_in_ca_cert]\nCrossCert = false\n[e_crl_next_update_invalid]\nSubscriberCRL = true\n"}}
 	var violMu sync.Mutex
 	violate := func(v Violation) {
 		violMu.Lock()
@@ -75,6 +79,11 @@ func subConc(out string, seed uint64, tier string, arg string) {
 					if err != nil {
 						violate(Violation{"C10", "Filter fails under concurrency: " + err.Error(), "filter-error", map[string]interface{}{"filter": regDefs[i].desc}})
 						r = g
+					}
+					if regDefs[i].cfg != "" {
+						if cfg, cerr := lint.NewConfigFromString(regDefs[i].cfg); cerr == nil {
+							r.SetConfiguration(cfg)
+						}
 					}
 					regs[i] = r
 				})
